@@ -126,6 +126,7 @@ class SimNet:
         self.sent = 0
         self._delivering = None
         self.unreachable = {}  # (ip, port) or ip -> errno: sendmsg towards it fails synchronously (ENETUNREACH, EPERM ...)
+        self.refuse = []  # callables(src, dst, data) -> errno or None: refusal of one particular datagram (EMSGSIZE ...)
         self.on_event = []  # callbacks(WireEvent) for online monitors
         self.after_delivery = []  # callbacks() at quiescent points
 
@@ -285,6 +286,8 @@ class FakeSock:
         src = (src_ip, self.addr[1] if self.addr else 0)
         dst = (norm_ip(address[0]), address[1])
         err = self.net.unreachable.get(dst, self.net.unreachable.get(dst[0]))
+        for f in self.net.refuse:
+            err = err or f(src, dst, data)
         if err:
             # the operating system refuses the datagram right away: nothing reaches the wire
             self.net._emit(WireEvent(self.net.loop.time(), "senderror", src, dst, data, note="errno %d" % err))
